@@ -1,12 +1,32 @@
 #!/opt/veriftools/pyvenv/bin/python
-import json, sys, glob, jsonschema
-m=json.load(open('/verif/MANIFEST.json')); s=json.load(open('/root/.vp/MANIFEST.schema.json'))
-jsonschema.validate(m,s); print('manifest ok', len(m['checks']), 'checks')
-es=json.load(open('/root/.vp/EVIDENCE.schema.json'))
+"""Validate MANIFEST.json and every evidence record the manifest names (schema + the per-level consistency
+rules the harness applies).  Exit 1 on any problem."""
+import json, sys, os, jsonschema
+m = json.load(open('/verif/MANIFEST.json')); s = json.load(open('/root/.vp/MANIFEST.schema.json'))
+jsonschema.validate(m, s); print('manifest ok', len(m['checks']), 'checks', len(m.get('not_applicable', [])), 'not applicable')
+es = json.load(open('/root/.vp/EVIDENCE.schema.json'))
+props = [json.loads(l)["id"] for l in open('/verif/properties.jsonl')]
+listed = [c['property_id'] for c in m['checks']] + [n['property_id'] for n in m.get('not_applicable', [])]
+bad = 0
+if sorted(listed) != sorted(props):
+    print('MANIFEST does not partition the properties'); bad = 1
 for c in m['checks']:
+    pid = c['property_id']; errs = []
     try:
-        e=json.load(open(c['evidence_file'])); jsonschema.validate(e,es)
-        if e['level']!=c['level_claimed']['category']: print('LEVEL MISMATCH', c['property_id'])
+        e = json.load(open(c['evidence_file']))
     except Exception as ex:
-        print('EVIDENCE BAD', c['property_id'], str(ex)[:200])
-print('evidence checked')
+        print('EVIDENCE BAD', pid, str(ex)[:200]); bad = 1; continue
+    errs += [x.message[:160] for x in jsonschema.Draft202012Validator(es).iter_errors(e)]
+    cov = e.get('coverage', {})
+    if e.get('property_id') != pid: errs.append('property_id mismatch')
+    if e.get('level') != c['level_claimed']['category']: errs.append('level %s != manifest %s' % (e.get('level'), c['level_claimed']['category']))
+    if e.get('level') == 'proof' and cov.get('obligations') != cov.get('discharged'): errs.append('proof: discharged %s != obligations %s' % (cov.get('discharged'), cov.get('obligations')))
+    if e.get('violations'): errs.append('violations=%s' % e['violations'])
+    if cov.get('new_violations'): errs.append('new_violations=%s' % cov['new_violations'])
+    if cov.get('discharged', 0) + cov.get('known_findings', 0) != cov.get('obligations'): errs.append('discharged+known != obligations')
+    if not cov.get('samples'): errs.append('no samples')
+    print(pid, e.get('tier'), e.get('level'), 'obligations', cov.get('obligations'), 'discharged', cov.get('discharged'),
+          'known', cov.get('known_findings'), 'distinct', cov.get('distinct_nontrivial'), 'OK' if not errs else 'BAD %s' % errs)
+    bad |= bool(errs)
+print('evidence', 'BAD' if bad else 'ok')
+sys.exit(1 if bad else 0)
